@@ -27,7 +27,23 @@ macro_rules! seg_impl {
             fn query(&mut self, a: i64, b: i64, t: i32, take: i32) -> Vec<SegVal> {
                 let mut it = self.iter_by_range(SegRange { min: a as $r, max: b as $r }, t);
                 let mut out = Vec::new();
-                if take == -2 {
+                if take == -4 {
+                    // crash-point runs: a panic out of next() is caught per call and the SAME
+                    // iterator is polled on - no value may be lost or repeated by that
+                    let mut panics = 0;
+                    loop {
+                        match std::panic::catch_unwind(std::panic::AssertUnwindSafe(|| it.next())) {
+                            Ok(Some(v)) => out.push(v),
+                            Ok(None) => break,
+                            Err(p) => {
+                                panics += 1;
+                                if p.downcast_ref::<crate::instr::Injected>().is_none() || panics > 2 {
+                                    std::panic::resume_unwind(p);
+                                }
+                            }
+                        }
+                    }
+                } else if take == -2 {
                     // fold-based consumption (for_each, count, sum, last ... all go through fold)
                     out = it.fold(Vec::new(), |mut acc, v| {
                         acc.push(v);
@@ -259,6 +275,11 @@ impl SegWorld {
                 twin_ids = Some(ids2);
             }
         }
+        // crash-point runs: on odd crash points keep polling the same iterator after the caught panic
+        let take = match step.panic_at {
+            Some(j) if take == -1 && j % 2 == 1 && j != crate::op::CONTROL => -4,
+            _ => take,
+        };
         let tree = &mut self.tree;
         let (r, n) = call(ctx, &cfg, "SegExpTree", "iter_by_range", "SQuery", observed || twin_ids.is_some(), step.panic_at, None, || tree.query(a, b, t, take))?;
         ctx.cb_counts.push(n);
@@ -276,7 +297,9 @@ impl SegWorld {
                         ctx.stats.bump("seg.scan_removed_expired_copies");
                     }
                 }
-                if take == -2 {
+                if take == -4 {
+                    ctx.stats.bump("fault.iterator_polled_on_after_caught_panic");
+                } else if take == -2 {
                     ctx.stats.bump("seg.query_consumed_by_fold");
                 } else if take == -3 {
                     ctx.stats.bump("fault.iter_leaked_after_full_consumption");
@@ -415,7 +438,7 @@ impl World for SegWorld {
         match op {
             Op::Tick { dt } => *dt >= 0,
             Op::SIns { a, b, .. } => lo <= *a && a <= b && *b <= hi,
-            Op::SQuery { a, b, take } => lo <= *a && a <= b && *b <= hi && *take >= -3,
+            Op::SQuery { a, b, take } => lo <= *a && a <= b && *b <= hi && *take >= -4,
             Op::SClear { .. } => true,
             _ => false,
         }
